@@ -630,25 +630,57 @@ def asprintf_headroom(prop, res):
             c0 = _strip(sa.strip_expect(sa.effective_cond(t)))
             if not (isinstance(c0, dict) and c0.get("k") == "binop" and c0["op"] in ("<", ">", "<=", ">=", "==", "!=")):
                 continue                   # the `while (0)` of the macro's do-block
-            # the macro's locals: alloc = d->alloc, newsize = d->size + n
-            alloc_v = new_v = None
+            # the macro's locals (alloc = d->alloc, newsize = d->size + n - assigned or initialised, under any names) are replaced by their
+            # definitions; d->alloc and d->size become symbols, and so does any other non-linear operand (the n argument)
+            defs = collections.defaultdict(list)
+            n_expr = None
             for b2 in fn["blocks"]:
                 for el in b2["elems"]:
                     if "GMP_ASPRINTF_T_NEED" not in (el.get("m") or []) or el["line"] != t.get("line", el["line"]):
                         continue
-                    e = el["e"]
-                    if e.get("k") == "binop" and e["op"] == "=" and e["l"].get("k") == "var":
-                        r = _strip(e["r"])
-                        if isinstance(r, dict) and r.get("k") == "member" and r["field"] == "alloc":
-                            alloc_v = e["l"]["id"]
-                        if isinstance(r, dict) and r.get("k") == "binop" and r["op"] == "+" and any(
-                                isinstance(_strip(x), dict) and _strip(x).get("k") == "member" and _strip(x)["field"] == "size" for x in (r["l"], r["r"])):
-                            new_v = e["l"]["id"]
+                    def dfn(m_):
+                        nonlocal n_expr
+                        if m_.get("k") == "binop" and m_["op"] == "=" and _strip(m_["l"]).get("k") == "var":
+                            defs[_strip(m_["l"])["id"]].append(m_["r"])
+                        if m_.get("k") == "decl":
+                            for d_ in m_["decls"]:
+                                if "init" in d_:
+                                    defs[d_["var"]["id"]].append(d_["init"])
+                        if m_.get("k") == "binop" and m_["op"] == "+" and n_expr is None:
+                            for x_, y_ in ((m_["l"], m_["r"]), (m_["r"], m_["l"])):
+                                if isinstance(_strip(x_), dict) and _strip(x_).get("k") == "member" and _strip(x_)["field"] == "size":
+                                    n_expr = y_
+                    sa.walk(el["e"], dfn)
+            syms = {}
+
+            def lin2(e, depth=0):
+                e = _strip(e)
+                if not isinstance(e, dict):
+                    return None
+                k_ = e.get("k")
+                if k_ == "int":
+                    return r_contract.T(e["v"])
+                if k_ == "member" and e["field"] in ("alloc", "size"):
+                    return r_contract.T(0, [(("v", -1 if e["field"] == "alloc" else -2), 1)])
+                if k_ == "var" and len(defs.get(e["id"], ())) == 1 and depth < 4:
+                    return lin2(defs[e["id"]][0], depth + 1)
+                if k_ == "binop" and e["op"] in ("+", "-"):
+                    l_, r_ = lin2(e["l"], depth), lin2(e["r"], depth)
+                    return None if l_ is None or r_ is None else r_contract.tadd(l_, r_, 1 if e["op"] == "+" else -1)
+                if k_ == "binop" and e["op"] == "*":
+                    l_, r_ = lin2(e["l"], depth), lin2(e["r"], depth)
+                    if l_ is not None and r_contract.tconst(l_) is not None and r_ is not None:
+                        return r_contract.tscale(r_, r_contract.tconst(l_))
+                    if r_ is not None and r_contract.tconst(r_) is not None and l_ is not None:
+                        return r_contract.tscale(l_, r_contract.tconst(r_))
+                key_ = skey(e)
+                syms.setdefault(key_, -10 - len(syms))
+                return r_contract.T(0, [(("v", syms[key_]), 1)])
             cond = sa.effective_cond(t)
             n += 1
             res["stats"]["asprintf_need_sites"] += 1
-            if alloc_v is None or new_v is None:
-                raise AnalysisBroken("R-PRINTF: cannot identify alloc / newsize in the GMP_ASPRINTF_T_NEED expansion at %s:%d" % (relpath(path), el["line"]))
+            if n_expr is None:
+                raise AnalysisBroken("R-PRINTF: cannot find `d->size + n` in the GMP_ASPRINTF_T_NEED expansion at %s:%d" % (relpath(path), t.get("line", 0)))
             # which successor grows?  the one that stores d->alloc
             def stores_alloc(bid):
                 blk = sa.blocks_by_id(fn)[bid]
@@ -662,9 +694,23 @@ def asprintf_headroom(prop, res):
             grow_false = isinstance(s1, int) and stores_alloc(s1)
             if grow_true == grow_false:
                 raise AnalysisBroken("R-PRINTF: cannot tell the growing edge of GMP_ASPRINTF_T_NEED at %s:%d" % (relpath(path), t.get("line", 0)))
-            facts = r_contract.constraints(cond, not grow_true)       # truth value on the edge that skips the reallocation
-            need = r_contract.tadd(r_contract.tadd(r_contract.T(-1), r_contract.T(0, [(("v", alloc_v), 1)])), r_contract.T(0, [(("v", new_v), 1)]), -1)
-            if facts is None or not r_contract.implies([f for f in facts if f[0] != "ne"], need):
+            # facts on the edge that skips the reallocation, over the symbols alloc (-1), size (-2) and the n argument
+            cc, truth_ = _strip(sa.strip_expect(cond)), not grow_true
+            while isinstance(cc, dict) and cc.get("k") == "unop" and cc["op"] == "!":
+                cc, truth_ = _strip(sa.strip_expect(cc["e"])), not truth_
+            facts = None
+            if isinstance(cc, dict) and cc.get("k") == "binop" and cc["op"] in ("<", ">", "<=", ">=", "==", "!="):
+                l_, r_ = lin2(cc["l"]), lin2(cc["r"])
+                if l_ is not None and r_ is not None:
+                    op_ = cc["op"] if truth_ else {"<": ">=", ">": "<=", "<=": ">", ">=": "<", "==": "!=", "!=": "=="}[cc["op"]]
+                    d_ = r_contract.tadd(l_, r_, -1)
+                    facts = {">=": [d_], ">": [r_contract.tadd(d_, r_contract.T(-1))], "<=": [r_contract.tscale(d_, -1)],
+                             "<": [r_contract.tadd(r_contract.tscale(d_, -1), r_contract.T(-1))],
+                             "==": [d_, r_contract.tscale(d_, -1)], "!=": []}[op_]
+            nt = lin2(n_expr)
+            need = r_contract.tadd(r_contract.tadd(r_contract.tadd(r_contract.T(-1), r_contract.T(0, [(("v", -1), 1)])),
+                                                   r_contract.T(0, [(("v", -2), 1)]), -1), nt, -1)         # alloc - size - n - 1 >= 0
+            if facts is None or not r_contract.implies(facts, need):
                 F.append(Finding(prop, "R-PRINTF", path, t.get("line", 0), fn["name"], "asprintf-headroom",
                                  "in %s the test that skips the reallocation in GMP_ASPRINTF_T_NEED does not entail alloc >= size + n + 1: "
                                  "when the output so far plus the new piece equals the allocation exactly, the terminating NUL of "
